@@ -494,6 +494,17 @@ func c18History(c *vc.Ctx, idx int) {
 		rush := blk > rushAt && blk <= rushAt+2
 		if r.Intn(6) == 0 {
 			m := candMember(len(cands))
+			if len(cands)%5 == 4 && idx%3 == 2 {
+				// (every third history; see known_findings.json: such a state is not importable, which ends the history's imports)
+				// a candidate that is announced with (and later registers) the vote key of an earlier candidate or of a member:
+				// nothing at run time forbids it (C16 judges such groups), so it is a reachable state to export
+				tw := lh.ch.W.Members[len(cands)%len(lh.ch.W.Members)]
+				if len(cands)%10 == 9 {
+					tw = cands[len(cands)-2].m
+				}
+				m.BLS, m.BLSPub = tw.BLS, tw.BLSPub
+				c.Count("candidates_sharing_a_vote_key", 1)
+			}
 			kh := sha256.Sum256(m.BLSPub)
 			cands = append(cands, &candidate{m: m, regHeight: uint64(lh.ch.Height + 1), hashOK: true, state: "pending"})
 			rq.Adds = append(rq.Adds, &goattypes.AddVoterRequest{Voter: common.BytesToAddress(m.Addr), Pubkey: common.BytesToHash(kh[:])})
